@@ -242,7 +242,10 @@ def check_case(part, case):
     try:
         parts_now = xml_parts(prs)
     except Exception as e:  # noqa: BLE001  the package can no longer be walked / serialised at all
-        sig = "C03|parts-unreadable|%s|after=%s" % (type(e).__name__, case["steps"][-1][1] if label != "ok" or True else "")
+        # a twin kind of the catalogue ("<kind>@<other object>") is the same operation on a second object of the kind:
+        # the same defect keeps the signature it has on the first object
+        import re as _re
+        sig = "C03|parts-unreadable|%s|after=%s" % (type(e).__name__, _re.sub(r"@[^.=]*", "", case["steps"][-1][1]))
         part.violation(sig, "init=%s %s steps=%s (%s): iterating/serialising the parts raised %r" % (case["init"], _loc(case), steps, label, e),
                        dict(case, signature=sig))
         return
